@@ -48,7 +48,11 @@ class Kernel:
         eng = Exec(mode=mode, module=self.real_module(), allowed_raises=self.allowed_raises)
         eng.fnode = node
         env, pre, ghost = self.setup(eng, bound)
-        outs = eng.run(node, env, pre, ghost)
+        region = self.region(node) if hasattr(self, "region") else None
+        if region is not None:
+            info["mode"] = "local region under a havoc'd entry state"
+            info["region_lines"] = [region[0].lineno, region[-1].end_lineno]
+        outs = eng.run(region if region is not None else node, env, pre, ghost)
         n_exits = 0
         for out, p in outs:
             n_exits += 1
